@@ -93,6 +93,19 @@ func TestReplay(t *testing.T) {
 	case "poison":
 		probePoison(t, c)
 		probeLeftover(t, c)
+	case "evalcmd":
+		probeEvalCmd(t, c)
+	case "hookfilter":
+		probeHookFilter(t, c)
+	case "mutated":
+		var d struct {
+			Case mutCase `json:"case"`
+		}
+		if err := json.Unmarshal(doc.Data, &d); err != nil || d.Case.Variant == "" {
+			t.Fatalf("bad replay data: %v", err)
+		}
+		c.Case()
+		runMutCase(t, c, d.Case)
 	case "poolgrowth":
 		var d struct {
 			Case growCase `json:"case"`
